@@ -399,6 +399,14 @@ func (a *Activation) bytesEqual(st *State, x, y Term) Term {
 	h := g.define("Hq", g.heap(st, bvSort(8)))
 	xN := g.define("sx", x)
 	yN := g.define("sy", y)
+	if g.noDefine > 0 {
+		g.nfresh++
+		iv := fmt.Sprintf("q_i_%d", g.nfresh)
+		atq := func(s Term) string {
+			return fmt.Sprintf("(select %s (elem %s (bvadd %s %s)))", h.S, sArr(s).S, sOff(s).S, iv)
+		}
+		return and(eq(sLen(xN), sLen(yN)), T(SBool, fmt.Sprintf("(forall ((%s (_ BitVec 64))) (=> (bvult %s %s) (= %s %s)))", iv, iv, sLen(xN).S, atq(xN), atq(yN))))
+	}
 	b := g.fresh("beq", SBool)
 	w := g.fresh("beqw", bvSort(64))
 	at := func(s Term, i string) string {
@@ -480,6 +488,9 @@ func (g *Gen) absBytes(st *State, x Term) Term {
 	hN := g.define("Hb", h)
 	xN := g.define("bsx", x)
 	t := app(SBSeq, "bs_abs", hN, xN)
+	if g.noDefine > 0 {
+		return t // under a binder: the quantified ByteSeq axioms relate it to its content
+	}
 	key := t.S
 	if b, ok := g.absCache[key]; ok {
 		return b
